@@ -1,14 +1,21 @@
 (** * C06 -- the N-Triples reader yields exactly the triples of the document *)
 From Coq Require Import List Ascii String ZArith Bool.
 From Shexer Require Import Lib.PyStr Gen.Consts Model.NtReader Spec.NtSyntax Spec.NtDom Spec.NtDomCur
-  Proofs.NtProofs Proofs.NtProofsFx.
+  Proofs.NtProofs Proofs.NtProofsFx Proofs.NtTotal.
 Import ListNotations.
 
-(** The reader has two texts: the tokeniser of the tree as it was, and the tokeniser after the
-    repairs notes/proposed_fixes/C06-token-end-before-dot.diff and C06-closing-quote-scan.diff.
-    [Gen.Consts.nt_fixed_tok] (regenerated from /repo on every run) says which one /repo has;
-    [read_raw_string_cur], [C06_dom_cur], [root_causes_cur] follow it.  Both models and both
-    domain theorems stay checked whatever the flag says.
+(** The reader has several texts: the tokeniser of the tree as it was, the tokeniser after the
+    repairs notes/proposed_fixes/C06-token-end-before-dot.diff and C06-closing-quote-scan.diff
+    ([Gen.Consts.nt_fixed_tok]), the typing repair C06-literal-type-from-suffix.diff
+    ([nt_fixed_dlt]), and the two edits of C06-comment-glued-to-dot.diff (finding C06-F7r):
+    a token also ends at '#' ([nt_tok_end_at_hash]) and a '<' that is never closed reaches the end
+    of the line instead of looping for ever ([nt_uri_unclosed_to_eol]).  The flags are regenerated
+    from /repo on every run; [read_raw_string_cur], [C06_dom_cur], [root_causes_cur] follow them.
+    Every model and every domain theorem stays checked whatever the flags say.
+
+    THE FULL PROPERTY ([C06], [C06_document], [C06_terminates] below) holds as soon as the flags
+    of all the repairs are [true]; until then it is false ([C06_full_refuted],
+    [C06_terminates_refuted]) and what holds is the statement on [C06_dom_cur]:
 
     Main theorem (partial: restricted to [C06_dom_cur]).  For every valid
     statement [t] and layout [l] (separators (space|tab)+, optional blanks
@@ -33,12 +40,79 @@ Theorem C06_document_partial : forall allow (ts : list (striple * layout)),
 Proof. exact document_partial_cur. Qed.
 Print Assumptions C06_document_partial.
 
-(** Termination: never the hang outcome (fuel is never exhausted). *)
-Theorem C06_terminates : forall allow t l,
+(** Termination on the domain: never the hang outcome (fuel is never exhausted). *)
+Theorem C06_terminates_partial : forall allow t l,
   valid_triple t = true -> valid_layout l = true -> C06_dom_cur t l = true ->
   forall ys e, read_raw_string_cur allow (nt_line t l) <> DocHang ys e.
 Proof. exact line_terminates_cur. Qed.
+Print Assumptions C06_terminates_partial.
+
+(** ** The full property, once every repair is in /repo (all four flags [true]).
+
+    No domain restriction: for EVERY valid statement and EVERY valid layout, reading the rendered
+    line yields exactly the kinded triple, zero error lines, no exception, no hang. *)
+Theorem C06 :
+  nt_fixed_tok = true -> nt_fixed_dlt = true -> nt_tok_end_at_hash = true ->
+  forall allow t l, valid_triple t = true -> valid_layout l = true ->
+  kinded_result (read_raw_string_cur allow (nt_line t l)) = Some ([kinded t], 0%nat).
+Proof. exact line_full_cur. Qed.
+Print Assumptions C06.
+
+Theorem C06_document :
+  nt_fixed_tok = true -> nt_fixed_dlt = true -> nt_tok_end_at_hash = true ->
+  forall allow (ts : list (striple * layout)),
+  Forall (fun x => valid_triple (fst x) = true /\ valid_layout (snd x) = true) ts ->
+  kinded_result (read_raw_string_cur allow (nt_doc ts)) = Some (map (fun x => kinded (fst x)) ts, 0%nat).
+Proof. exact document_full_cur. Qed.
+Print Assumptions C06_document.
+
+(** ... in other words [C06_dom_cur] has lost its last root cause, and [C06_partial],
+    [C06_document_partial], [C06_terminates_partial] are the full statements *)
+Theorem C06_dom_cur_total :
+  nt_fixed_tok = true -> nt_fixed_dlt = true -> nt_tok_end_at_hash = true -> forall t l, C06_dom_cur t l = true.
+Proof. exact dom_cur_total. Qed.
+Print Assumptions C06_dom_cur_total.
+
+(** Termination for ALL text, valid N-Triples or not, any bytes: no line makes the reader hang
+    (raw string or file, a document or one line).  Every iteration of [_look_for_tokens] moves
+    forward once a '<' without '>' reaches the end of the line ([Proofs/NtTotal.v]). *)
+Theorem C06_terminates :
+  nt_fixed_tok = true -> nt_fixed_dlt = true -> nt_uri_unclosed_to_eol = true ->
+  forall allow doc ys e,
+    read_raw_string_cur allow doc <> DocHang ys e /\ read_file_cur allow doc <> DocHang ys e /\
+    process_line_cur allow doc <> LHang.
+Proof. exact terminates_all_cur. Qed.
 Print Assumptions C06_terminates.
+
+(** The same three statements about the model of the fully repaired reader itself
+    ([read_raw_string_fx3] = every proposed repair), whatever /repo holds. *)
+Theorem C06_fully_repaired_reader : forall allow t l,
+  valid_triple t = true -> valid_layout l = true ->
+  kinded_result (read_raw_string_fx3 allow (nt_line t l)) = Some ([kinded t], 0%nat).
+Proof. exact (line_full_g2 true). Qed.
+Print Assumptions C06_fully_repaired_reader.
+
+Theorem C06_document_fully_repaired_reader : forall allow (ts : list (striple * layout)),
+  Forall (fun x => valid_triple (fst x) = true /\ valid_layout (snd x) = true) ts ->
+  kinded_result (read_raw_string_fx3 allow (nt_doc ts)) = Some (map (fun x => kinded (fst x)) ts, 0%nat).
+Proof. exact (document_full_g2 true). Qed.
+Print Assumptions C06_document_fully_repaired_reader.
+
+Theorem C06_terminates_fully_repaired_reader : forall allow doc ys e,
+  read_raw_string_fx3 allow doc <> DocHang ys e /\ read_file_fx3 allow doc <> DocHang ys e.
+Proof. intros allow doc ys e. split; [apply (read_raw_string_g2_total true) | apply (read_file_g2_total true)]. Qed.
+Print Assumptions C06_terminates_fully_repaired_reader.
+
+(** each switch does its own part: [hs] alone gives the full statement on valid lines, [el] alone
+    excludes hangs on every text *)
+Theorem C06_each_switch : forall hs el allow,
+  (hs = true -> forall t l, valid_triple t = true -> valid_layout l = true ->
+     kinded_result (read_raw_string_g2 hs el allow (nt_line t l)) = Some ([kinded t], 0%nat)) /\
+  (el = true -> forall doc ys e, read_raw_string_g2 hs el allow doc <> DocHang ys e).
+Proof.
+  intros hs el allow. split; intros ->; [intros t l; apply line_full_g2 | intros doc ys e; apply read_raw_string_g2_total].
+Qed.
+Print Assumptions C06_each_switch.
 
 (** The domain is the joint absence of the root causes. *)
 Theorem C06_dom_is_no_root_cause : forall t l,
@@ -68,10 +142,11 @@ Print Assumptions C06_partial_all_repairs.
 
 (** The repairs only enlarge the domain: the tokeniser repairs remove every root cause but F3, F4,
     F5 (typing of the token, [decide_literal_type]) and the [_:b.#comment] remainder of F7; the
-    typing repair removes F3, F4, F5. *)
+    typing repair removes F3, F4, F5; comment-glued-to-dot removes the remainder of F7. *)
 Theorem C06_repairs_enlarge_domain : forall t l,
-  (C06_dom t l = true -> C06_dom_fx t l = true) /\ (C06_dom_fx t l = true -> C06_dom_fx2 t l = true).
-Proof. intros t l. split; [apply dom_grows | apply dom_grows2]. Qed.
+  (C06_dom t l = true -> C06_dom_fx t l = true) /\ (C06_dom_fx t l = true -> C06_dom_fx2 t l = true) /\
+  (forall hs, C06_dom_fx2 t l = true -> C06_dom_fx3 hs t l = true) /\ C06_dom_fx3 true t l = true.
+Proof. intros t l. split; [apply dom_grows | split; [apply dom_grows2 | split; [intros hs; apply dom_grows3 | apply dom_fx3_total]]]. Qed.
 Print Assumptions C06_repairs_enlarge_domain.
 
 (** ** non-vacuity *)
@@ -200,14 +275,28 @@ Example C06_F1_F2_F6_F7_F8_repaired :
   reads_right_fx (plain (ic "a")) (lay " " " " " " (Some (" "%string, " ^^ <x>"%string))).
 Proof. repeat split; vm_compute; reflexivity. Qed.
 
-(** ** all three repairs: only the remainder of F7 is left *)
-Lemma C06_F7_refuted_all_repairs : exists t l, rc_F7_fx t l = true /\
+(** ** all three earlier repairs: only the remainder of F7 is left (whatever the switch [el]) *)
+Lemma C06_F7_refuted_all_repairs : forall el, exists t l, rc_F7_fx t l = true /\
   valid_triple t = true /\ valid_layout l = true /\
-  kinded_result (read_raw_string_fx2 false (nt_line t l)) <> Some ([kinded t], 0%nat).
+  kinded_result (read_raw_string_g2 false el false (nt_line t l)) <> Some ([kinded t], 0%nat).
 Proof.
+  intros el.
   exists (STriple ex_s ex_p (ONode (NBn (Str "b2")))), (lay " " " " "" (Some (""%string, "c"%string))).
-  split; [reflexivity|]. split; [vm_compute; reflexivity | split; [vm_compute; reflexivity | vm_compute; discriminate]].
+  split; [reflexivity|]. split; [vm_compute; reflexivity | split; [vm_compute; reflexivity | destruct el; vm_compute; discriminate]].
 Qed.
+
+(** the same root cause as a HANG: the token [_:0-0.#] swallows the dot, the tokeniser walks on into
+    the comment, meets a '<' that is never closed and stops advancing.  Valid N-Triples:
+    [_:ZbbZ  <TAB><http://e/><TAB>_:0-0.# <x> @:a(e-acute)<xsd:a] *)
+Definition hang_t : striple := STriple (NBn (Str "ZbbZ")) (Str "http://e/") (ONode (NBn (Str "0-0"))).
+Definition hang_l : layout :=
+  Layout [" "%char; " "%char; ascii_of_nat 9] [ascii_of_nat 9] []
+         (Some ([], Str " <x> @:a" ++ [ascii_of_nat 195; ascii_of_nat 169] ++ Str "<xsd:a")).
+
+Lemma C06_F7r_hang_refuted :
+  rc_F7_fx hang_t hang_l = true /\ valid_triple hang_t = true /\ valid_layout hang_l = true /\
+  read_raw_string_fx2 false (nt_line hang_t hang_l) = DocHang [] 0%nat.
+Proof. repeat split; vm_compute; reflexivity. Qed.
 
 Definition reads_right_fx2 (t : striple) (l : layout) : Prop :=
   kinded_result (read_raw_string_fx2 false (nt_line t l)) = Some ([kinded t], 0%nat).
@@ -218,12 +307,53 @@ Example C06_F3_F4_F5_repaired :
   reads_right_fx2 (STriple ex_s ex_p (OLit (ic "a") (SufType (Str "http://e/a@b")))) (lay " " " " " " None).
 Proof. repeat split; vm_compute; reflexivity. Qed.
 
-(** hence the full statement (no domain restriction) does not hold, whichever text /repo has *)
-Lemma C06_full_refuted : ~ (forall t l, valid_triple t = true -> valid_layout l = true ->
-  kinded_result (read_raw_string_cur false (nt_line t l)) = Some ([kinded t], 0%nat)).
+(** ** with comment-glued-to-dot: the witnesses of F7r are read right, the hang line included *)
+Definition reads_right_fx3 (t : striple) (l : layout) : Prop :=
+  kinded_result (read_raw_string_fx3 false (nt_line t l)) = Some ([kinded t], 0%nat).
+
+Example C06_F7r_repaired :
+  reads_right_fx3 (STriple ex_s ex_p (ONode (NBn (Str "b2")))) (lay " " " " "" (Some (""%string, "c"%string))) /\
+  reads_right_fx3 hang_t hang_l /\
+  (* each switch alone: [hs] reads both lines right, [el] alone turns the hang into a wrong blank-node name *)
+  kinded_result (read_raw_string_g2 true false false (nt_line hang_t hang_l)) = Some ([kinded hang_t], 0%nat) /\
+  (exists ys n, read_raw_string_g2 false true false (nt_line hang_t hang_l) = DocDone ys n /\
+                kinded_result (DocDone ys n) <> Some ([kinded hang_t], 0%nat)).
 Proof.
-  intros H. unfold read_raw_string_cur in H. destruct nt_fixed_tok; [destruct nt_fixed_dlt|].
-  - destruct C06_F7_refuted_all_repairs as (t & l & _ & V & VL & N). apply N. apply H; assumption.
+  repeat split; try (vm_compute; reflexivity).
+  eexists; eexists. split; [vm_compute; reflexivity | vm_compute; discriminate].
+Qed.
+
+(** an invalid line on which only [el] helps: '<' never closed *)
+Example C06_unclosed_corner :
+  (forall hs, process_line_g2 hs false false (Str "<http://e/s> <http://e/p> <http://e/o .") = LHang) /\
+  process_line_fx3 false (Str "<http://e/s> <http://e/p> <http://e/o .") = LRaise EValue.
+Proof. split; [intros hs; destruct hs; vm_compute; reflexivity | vm_compute; reflexivity]. Qed.
+
+(** hence, as long as a token does not end at '#', the full statement (no domain restriction) does
+    not hold, whichever of the other texts /repo has *)
+Lemma C06_full_refuted :
+  nt_fixed_tok && nt_fixed_dlt && nt_tok_end_at_hash = false ->
+  ~ (forall t l, valid_triple t = true -> valid_layout l = true ->
+     kinded_result (read_raw_string_cur false (nt_line t l)) = Some ([kinded t], 0%nat)).
+Proof.
+  intros F H. unfold read_raw_string_cur in H. destruct nt_fixed_tok; [destruct nt_fixed_dlt|].
+  - cbn [andb] in F. rewrite F in H.
+    destruct (C06_F7_refuted_all_repairs nt_uri_unclosed_to_eol) as (t & l & _ & V & VL & N). apply N. apply H; assumption.
   - destruct C06_F3_refuted_repaired_tokeniser as (t & l & _ & V & VL & N). apply N. apply H; assumption.
   - destruct C06_F1_refuted as (t & l & _ & V & VL & N). apply N. apply H; assumption.
+Qed.
+
+(** ... and as long as a '<' without '>' does not reach the end of the line, some text makes the
+    reader hang: an invalid line whatever [nt_tok_end_at_hash] says, and the VALID line of
+    [C06_F7r_hang_refuted] when a token does not end at '#' either *)
+Lemma C06_terminates_refuted :
+  nt_fixed_tok = true -> nt_fixed_dlt = true -> nt_uri_unclosed_to_eol = false ->
+  (exists doc ys e, read_raw_string_cur false doc = DocHang ys e) /\
+  (nt_tok_end_at_hash = false ->
+   exists t l ys e, valid_triple t = true /\ valid_layout l = true /\
+                    read_raw_string_cur false (nt_line t l) = DocHang ys e).
+Proof.
+  intros E1 E2 E3. unfold read_raw_string_cur. rewrite E1, E2, E3. split.
+  - exists (Str "<x"), [], 0%nat. destruct nt_tok_end_at_hash; vm_compute; reflexivity.
+  - intros ->. exists hang_t, hang_l, [], 0%nat. repeat split; vm_compute; reflexivity.
 Qed.
